@@ -283,6 +283,8 @@ func All(quick bool) []Params {
 			Params{Buf: b, Senders: [][]int{{1, 2}}, Closer: "", RecvThenClose: 0, Cancel: "send"},
 			Params{Buf: b, Senders: [][]int{{1}}, Closer: "", RecvThenClose: -1, Cancel: "next"},
 			Params{Buf: b, Senders: [][]int{{1, 2}}, Closer: "last", RecvThenClose: -1, Cancel: "nextRetry"},
+			// the element type's zero value is a value like any other
+			Params{Buf: b, Senders: [][]int{{0, 5}}, CloseErr: b == 1, Closer: "last", RecvThenClose: -1},
 			Params{Buf: b, Senders: [][]int{{1, 2}}, Try: true, Closer: "last", RecvThenClose: -1},
 			Params{Buf: b, Senders: [][]int{{1, 2}, {11}}, Try: true, CloseErr: true, Closer: "thread", RecvThenClose: -1},
 		)
